@@ -34,6 +34,8 @@ def gen_offsets(rng, n, style):
             o = L5 * rng.randrange(0, 4 * n + 4)
         elif style == 'lcmbig':     # ... and modulo 197 (and 389)
             o = L5 * 197 * rng.choice([1, 389]) * rng.randrange(0, 24)
+        elif style == 'lcm197':     # as many as wanted, all homes equal modulo every size up to 197
+            o = L5 * 197 * rng.randrange(0, 4 * n + 4)
         elif style == 'endcluster':  # homes at the last slots of a small registry: wrap-around
             m = rng.choice([5, 11, 23])
             o = m * GAP * rng.randrange(0, 6 * n + 6) + (m - 1 - rng.randrange(0, 3))
@@ -131,7 +133,7 @@ def gen_grow(rng, n, base, brief=False):
     """growth past several primes and shrink back: n objects, most of them roots or kept on the
     stack, allocated in a row with a few deletions and queries in between, then deleted in random
     order with collections in between (Resize_More / Resize_Less at every threshold)"""
-    style = rng.choice(['lcm', 'lcmbig', 'dense', 'mixed', 'endcluster'])
+    style = rng.choice(['lcm', 'lcm197', 'dense', 'mixed', 'endcluster'])
     offs = gen_offsets(rng, n, style)
     n = len(offs)
     ids = list(range(n))
